@@ -471,19 +471,44 @@ def base_text(case):
     return "chr1\tsrc\t%s\t10\t20\t.\t+\t.\t%s" % (typ, attr)
 
 
+def base_cols(case):
+    return ["chr1", "src", "exon" if case["fmt"] == "gtf" else "gene", 10, 20, ".", "+", "."]
+
+
+JSON_ORIGINS = ("jsontext", "jsondb")
+
+
 def obtain(case, dbs):
+    """The feature of a set / print / edit case.  origin: line (parsed), db (imported, fetched), jsontext
+    (Feature(attributes=<JSON text with scalar values>)), jsondb (imported, attributes column rewritten with a plain
+    UPDATE to JSON text with scalar values, fetched)."""
     import gffutils
-    from gffutils.feature import feature_from_line
+    from gffutils.feature import Feature, feature_from_line
 
     line = base_text(case)
-    if case["origin"] == "line":
+    origin = case["origin"]
+    if origin == "line":
         return feature_from_line(line)
+    if origin == "jsontext":
+        c = base_cols(case)
+        return Feature(seqid=c[0], source=c[1], featuretype=c[2], start=c[3], end=c[4], score=c[5], strand=c[6], frame=c[7],
+                       attributes=M.scalar_json(case["json_base"], case.get("json_style", 0)),
+                       dialect=dict(GTF_DIALECT) if case["fmt"] == "gtf" else None)
     db = gffutils.create_db(line, ":memory:", from_string=True)
     dbs.append(db)
     for f in db.all_features():
         if f.source != "gffutils_derived":
-            return f
-    raise AssertionError("harness: the imported line is not in the database")
+            break
+    else:
+        raise AssertionError("harness: the imported line is not in the database")
+    if origin == "jsondb":
+        cur = db.conn.execute("UPDATE features SET attributes = ? WHERE id = ?",
+                              (M.scalar_json(case["json_base"], case.get("json_style", 0)), f.id))
+        if cur.rowcount != 1:
+            raise AssertionError("harness: UPDATE touched %r rows" % (cur.rowcount,))
+        db.conn.commit()
+        f = db[f.id]
+    return f
 
 
 def apply_op(f, op):
@@ -530,6 +555,12 @@ def prepared(ctx, case, dbs):
     if bad_value(start):
         ctx.violation(case, dict({"why": "freshly obtained feature: " + bad_value(start)}, **bad_detail(start)))
         return None
+    if case["origin"] in JSON_ORIGINS:
+        ctx.mon("set: features obtained from scalar-valued JSON")
+        if as_lists(start) != [[k, list(v)] for k, v in case["base"]]:
+            ctx.violation(case, {"why": "feature obtained from JSON text with scalar values: attributes are not the wrapped values",
+                                 "got": as_lists(start), "expected": case["base"]})
+            return None
     model = M.Model(as_lists(start))
     for n, op in enumerate(case["ops"]):
         try:
@@ -542,6 +573,8 @@ def prepared(ctx, case, dbs):
             if op["how"] == "delete":
                 model.delete(k)
             elif op["how"] == "setdefault":
+                if k not in model.d:
+                    ctx.mon("set: setdefault with a %s default on a missing key" % form[0])
                 model.setdefault(k, form)
             else:
                 model.set(k, form)
@@ -549,11 +582,19 @@ def prepared(ctx, case, dbs):
 
 
 def close_all(dbs):
+    """dbs holds FeatureDB objects and ("path", filename) entries."""
     for db in dbs:
+        if isinstance(db, tuple):
+            continue
         try:
             db.conn.close()
         except Exception:
             pass
+    for db in dbs:
+        if isinstance(db, tuple):
+            for p in (db[1], db[1] + "-journal"):
+                if os.path.exists(p):
+                    os.unlink(p)
 
 
 def run_set(ctx, case):
@@ -745,7 +786,465 @@ def run_alias(ctx, case):
     drain(ctx, case)
 
 
-KINDS = {"json": run_json, "merge": run_merge, "db": run_db, "eq": run_eq, "set": run_set, "print": run_print, "alias": run_alias}
+# ---------------------------------------------------------------------------------
+# kind edit: state carried on ONE object between observations.  str / hash / == / set membership / JSON column are taken,
+# the feature is edited (attribute mapping, in-place on a value list, columns), and every later observation must describe
+# the feature as it is then: the printed line re-parses to the current columns and attributes, an independently built
+# feature with the same columns and attributes is == and hashes alike
+# ---------------------------------------------------------------------------------
+class EditState(object):
+    def __init__(self, cols, pairs):
+        self.cols = list(cols)
+        self.attrs = M.Model(pairs)
+        self.prev = None
+
+    def snapshot(self):
+        return (list(self.cols), self.attrs.pairs())
+
+
+def dialect_core(d):
+    return {k: v for k, v in dict(d).items() if k != "order"}
+
+
+def set_state(g, snap):
+    cols, pairs = snap
+    for name, val in zip(M.COLUMN_NAMES, cols):
+        setattr(g, name, val)
+    for k in list(g.attributes.keys()):
+        del g.attributes[k]
+    for k, v in pairs:
+        g.attributes[k] = list(v)
+    return g
+
+
+def build_equal(ctx, case, f, snap, dbs, how):
+    """A feature with the columns and attributes of `snap`, built without touching f: 'fresh' = obtained again from the
+    same origin and given the state in one go; 'parse' = parsed from the proper line (None when the parser infers
+    another dialect than f carries, e.g. for an empty attribute column)."""
+    from gffutils.feature import feature_from_line
+
+    if how == "fresh":
+        if case["origin"] in ("db", "jsondb"):
+            g = dbs[0][f.id]
+        else:
+            g = obtain(case, dbs)
+        return set_state(g, snap)
+    g = feature_from_line(M.render_line(snap[0], snap[1], case["fmt"]))
+    if dialect_core(g.dialect) != dialect_core(f.dialect):
+        ctx.mon("edit: proper line parsed under another dialect (not compared)")
+        return None
+    return g
+
+
+def look(ctx, case, f, st, obs, dbs, cache):
+    """One observation of f judged against the state; returns a violation detail or None."""
+    from gffutils.feature import feature_from_line
+
+    cols, pairs = st.snapshot()
+    if obs == "str":
+        s = str(f)
+        ctx.mon("edit: printed lines re-parsed and compared")
+        fields = s.split("\t")
+        if len(fields) != 9 or fields[:8] != M.column_texts(cols):
+            return {"why": "printed line does not show the current columns of the edited feature", "line": s,
+                    "columns": M.column_texts(cols)}
+        p = feature_from_line(s)
+        got = as_lists(observe(p.attributes))
+        if got != pairs:
+            return {"why": "printed line does not re-parse to the current attributes of the edited feature", "line": s,
+                    "reparsed": got, "attributes": pairs}
+        return None
+    if obs == "json":
+        t = f.astuple()
+        ctx.mon("edit: JSON column compared")
+        try:
+            dec = [[k, M.values_of(v)] for k, v in json.loads(t[9], object_pairs_hook=list)]
+        except (ValueError, TypeError) as ex:
+            dec = repr(ex)
+        if dec != pairs or [t[4], t[5]] != cols[3:5]:
+            return {"why": "astuple() does not describe the current state of the edited feature", "astuple": repr(t),
+                    "attributes": pairs, "columns": M.column_texts(cols)}
+        return None
+    if obs == "old":
+        if st.prev is None or st.prev == (cols, pairs):
+            return None
+        h = build_equal(ctx, case, f, st.prev, dbs, "fresh")
+        same = str(f) == str(h)
+        e, ne = f == h, f != h
+        ctx.mon("edit: compared with a feature in the state before the edit")
+        if bool(e) != same or bool(ne) != (not same):
+            return {"why": "(a == b) is %r, (a != b) is %r but the printed lines are %s (a edited, b = the state before the edit)"
+                           % (e, ne, "equal" if same else "different"), "a": str(f), "b": str(h)}
+        if same and hash(f) != hash(h):
+            return {"why": "a == b but hash(a) != hash(b)", "a": str(f), "b": str(h)}
+        return None
+    # observations against independently built equal features
+    hf = hash(f) if obs == "hash" else None
+    for how in ("fresh", "parse"):
+        if how not in cache:
+            cache[how] = build_equal(ctx, case, f, (cols, pairs), dbs, how)
+        g = cache[how]
+        if g is None:
+            continue
+        ctx.mon("edit: equal feature built afresh from the same origin" if how == "fresh"
+                else "edit: equal feature built by parsing the proper line")
+        sf, sg = str(f), str(g)
+        e, e2, ne = f == g, g == f, f != g
+        info = {"edited": sf, "independent": sg, "independent built": how, "observation": obs}
+        if bool(e) != (sf == sg) or bool(e2) != (sf == sg) or bool(ne) != (sf != sg):
+            return dict(info, why="(a == b) is %r, (b == a) is %r, (a != b) is %r but the printed lines are %s"
+                                  % (e, e2, ne, "equal" if sf == sg else "different"))
+        if not e:
+            return dict(info, why="edited feature is not == to an independently built feature with the same columns and attributes")
+        ctx.mon("edit: == with an independently built equal feature")
+        if obs == "hash":
+            ctx.mon("edit: hash compared with an independently built equal feature")
+            if hf != hash(g) or hash(f) != hash(g):
+                return dict(info, why="a == b but hash(a) != hash(b) (a edited after an earlier observation)")
+        if obs == "set":
+            ctx.mon("edit: set/dict membership judged")
+            if not (g in {f} and f in {g} and {f: "v"}.get(g) == "v" and {g: "v"}.get(f) == "v" and len({f, g}) == 1
+                    and len({g, f}) == 1):
+                return dict(info, why="set/dict built after the edit does not treat the edited feature and an equal feature as one key")
+    return None
+
+
+def apply_edit(ctx, f, st, op):
+    """Carries out one edit on f and on the state; returns a violation detail or None."""
+    how = op["how"]
+    if how == "column":
+        name = M.COLUMN_NAMES[op["field"]]
+        if op["via"] == "index":
+            f[op["field"]] = op["value"]
+        elif op["via"] == "alias":
+            setattr(f, {"seqid": "chrom", "end": "stop"}[name], op["value"])
+        else:
+            setattr(f, name, op["value"])
+        st.cols[op["field"]] = op["value"]
+        ctx.mon("edit: column edits")
+        ctx.mon("edit: column edits through %s" % {"index": "feature[i]", "alias": "chrom/stop", "attr": "the attribute"}[op["via"]])
+        return None
+    if how == "inplace":
+        keys = list(f.attributes.keys())
+        if not keys:
+            ctx.mon("edit: in-place edits not carried out (no key / tuple stored / empty list)")
+            return None
+        k = keys[op["pick"] % len(keys)]
+        lst = f.attributes[k]
+        new = M.inplace_result(st.attrs.d.get(k, []), op["what"], op["args"]) if isinstance(lst, list) else None
+        if new is None:
+            ctx.mon("edit: in-place edits not carried out (no key / tuple stored / empty list)")
+            return None
+        before = st.attrs.pairs()
+        M.do_inplace(lst, op["what"], op["args"])
+        cur = observe(f.attributes)
+        st.attrs.d[k] = new
+        if bad_value(cur):
+            return dict({"why": "after an in-place edit of a value list: " + bad_value(cur)}, **bad_detail(cur))
+        if as_lists(cur) == st.attrs.pairs():
+            ctx.mon("edit: in-place value-list edits")
+            ctx.mon("edit: in-place %s" % op["what"])
+            return None
+        if as_lists(cur) == before:
+            # the statement does not say that the list handed out is the stored one
+            st.attrs.d[k] = dict(before)[k]
+            ctx.mon("edit: in-place edits not reflected by the mapping (accepted)")
+            return None
+        return {"why": "after an in-place edit of a value list the mapping shows neither the old nor the new values",
+                "key": k, "edit": op["what"], "got": as_lists(cur), "expected": st.attrs.pairs()}
+    with Switch(op.get("switch", True)):
+        apply_op(f, op)
+    for k, form in op["items"]:
+        if how == "delete":
+            st.attrs.delete(k)
+        elif how == "setdefault":
+            if k not in st.attrs.d:
+                ctx.mon("edit: setdefault with a %s default on a missing key" % form[0])
+            st.attrs.setdefault(k, form)
+        else:
+            st.attrs.set(k, form)
+    cur = observe(f.attributes)
+    ctx.mon("edit: attribute-mapping edits")
+    if bad_value(cur):
+        return dict({"why": "edited feature: " + bad_value(cur)}, **bad_detail(cur))
+    if as_lists(cur) != st.attrs.pairs():
+        return {"why": "stored values differ from what was set", "got": as_lists(cur), "expected": st.attrs.pairs(), "edit": how}
+    return None
+
+
+def run_edit(ctx, case):
+    dbs = []
+    try:
+        try:
+            f = obtain(case, dbs)
+            start = observe(f.attributes)
+        except Exception as ex:
+            ctx.violation(case, {"why": "obtaining the feature raised %s" % type(ex).__name__, "exception": repr(ex)})
+            contracts.drain()
+            return
+        if bad_value(start):
+            ctx.violation(case, dict({"why": "freshly obtained feature: " + bad_value(start)}, **bad_detail(start)))
+            contracts.drain()
+            return
+        if as_lists(start) != [[k, list(v)] for k, v in case["base"]]:
+            ctx.violation(case, {"why": "freshly obtained feature: attributes differ from the line / JSON text it comes from",
+                                 "got": as_lists(start), "expected": case["base"]})
+            contracts.drain()
+            return
+        st = EditState(base_cols(case), as_lists(start))
+        steps = list(case["steps"]) + [{"pre": case["final"], "op": None}]
+        for n, step in enumerate(steps):
+            cache = {}
+            for obs in step["pre"]:
+                try:
+                    bad = look(ctx, case, f, st, obs, dbs, cache)
+                except Exception as ex:
+                    bad = {"why": "observation %s raised %s" % (obs, type(ex).__name__), "exception": repr(ex)}
+                if n:
+                    ctx.mon("edit: observations after an edit")
+                if n < len(steps) - 1:
+                    ctx.mon("edit: observations followed by an edit")
+                if bad:
+                    bad["after edits"] = n
+                    bad["last edit"] = steps[n - 1]["op"] if n else None
+                    ctx.violation(case, bad)
+                    contracts.drain()
+                    return
+            if step["op"] is None:
+                break
+            st.prev = st.snapshot()
+            try:
+                bad = apply_edit(ctx, f, st, step["op"])
+            except Exception as ex:
+                bad = {"why": "edit %s raised %s" % (step["op"]["how"], type(ex).__name__), "exception": repr(ex)}
+            ctx.mon("edit: steps")
+            if bad:
+                bad["step"] = n
+                ctx.violation(case, bad)
+                contracts.drain()
+                return
+    finally:
+        close_all(dbs)
+    drain(ctx, case)
+
+
+# ---------------------------------------------------------------------------------
+# kind sjson: JSON texts whose values are scalars; databases whose attributes column holds such text
+# ---------------------------------------------------------------------------------
+def same_feature(ctx, a, b, what):
+    """a (from scalar-valued JSON) against b (the list form / the parsed proper line): line, ==, !=, hash."""
+    sa, sb = str(a), str(b)
+    if sa != sb:
+        return {"why": "printed line of the feature from scalar-valued JSON differs from that of %s" % what, "scalar": sa, "other": sb}
+    if not (a == b) or not (b == a) or (a != b):
+        return {"why": "feature from scalar-valued JSON is not == to %s although the printed lines are equal" % what, "line": sa}
+    if hash(a) != hash(b):
+        return {"why": "feature from scalar-valued JSON hashes unlike %s (a == b)" % what, "line": sa}
+    return None
+
+
+def wrapped(ctx, attrs, want, what):
+    got = observe(attrs)
+    ctx.mon("sjson: attribute mappings checked")
+    if bad_value(got):
+        return dict({"why": "%s: %s" % (what, bad_value(got))}, **bad_detail(got))
+    if as_lists(got) != want:
+        return {"why": "%s: attributes are not the wrapped values in the order of the text" % what, "got": as_lists(got),
+                "expected": want}
+    ctx.mon("sjson: scalar values seen wrapped", sum(1 for _ in got))
+    with Switch(False):
+        seen = observe(attrs)
+    for (k, stored), (_, view) in zip(got, seen):
+        ok, _changed = M.view_ok(stored, view)
+        if not ok:
+            return {"why": "%s: always_return_list=False changes the view of a value that is not a one-item list" % what,
+                    "key": k, "stored": repr(stored), "viewed": repr(view)}
+    return None
+
+
+def sjson_text(ctx, case, items, want, text_s, text_l):
+    from gffutils import helpers
+    from gffutils.feature import Feature, feature_from_line
+
+    cols = base_cols(case)
+    back = helpers._unjsonify(text_s, isattributes=True)
+    ctx.mon("sjson: texts decoded with _unjsonify")
+    bad = wrapped(ctx, back, want, "_unjsonify(<JSON with scalar values>, isattributes=True)")
+    if bad:
+        return bad
+    again = helpers._unjsonify(helpers._jsonify(back), isattributes=True)
+    bad = wrapped(ctx, again, want, "JSON text -> attributes -> JSON text -> attributes")
+    if bad:
+        return bad
+    kw = dict(seqid=cols[0], source=cols[1], featuretype=cols[2], start=cols[3], end=cols[4], score=cols[5], strand=cols[6],
+              frame=cols[7])
+    mk = lambda t: Feature(attributes=t, dialect=dict(GTF_DIALECT) if case["fmt"] == "gtf" else None, **kw)
+    g, h = mk(text_s), mk(text_l)
+    bad = wrapped(ctx, g.attributes, want, "Feature(attributes=<JSON with scalar values>)")
+    if bad:
+        return bad
+    ctx.mon("sjson: Feature(attributes=text) compared with the list form")
+    bad = same_feature(ctx, g, h, "the feature built from the list form")
+    if bad:
+        return bad
+    if not case["rich"]:
+        p = feature_from_line(M.render_line(cols, want, case["fmt"]))
+        if str(p) == str(h):
+            ctx.mon("sjson: compared with the feature parsed from the proper line")
+            return same_feature(ctx, g, p, "the feature parsed from the proper line")
+        ctx.mon("sjson: proper line prints unlike the list form (not compared)")
+    return None
+
+
+def sjson_update(ctx, case, items, want, text_s, text_l, dbs):
+    import sqlite3
+
+    import gffutils
+    from gffutils.feature import feature_from_line
+
+    cols = base_cols(case)
+    if case["fmt"] == "gtf":
+        lines = ["\t".join(M.column_texts(cols)) + '\tgene_id "g1"; transcript_id "t1"; exon_number "%d";' % i for i in range(3)]
+    else:
+        lines = ["\t".join(M.column_texts(cols)) + "\tID=r%d;Note=n%d" % (i, i) for i in range(3)]
+    fn = ":memory:"
+    if case["route"] == "update_file":
+        fn = ctx.tmp(".db")
+        dbs.append(("path", fn))
+    db = gffutils.create_db("\n".join(lines) + "\n", fn, from_string=True)
+    dbs.append(db)
+    ids = [f.id for f in db.all_features(order_by="start") if f.source != "gffutils_derived" and f.featuretype == cols[2]]
+    ids.sort()
+    if len(ids) != 3:
+        raise AssertionError("harness: %d imported rows" % len(ids))
+    before = {i: str(db[i]) for i in ids}
+    todo = [(text_s, ids[0]), (text_l, ids[1])]
+    if case["route"] == "update_file":
+        db.conn.close()
+        con = sqlite3.connect(fn)
+        n = sum(con.execute("UPDATE features SET attributes = ? WHERE id = ?", t).rowcount for t in todo)
+        con.commit()
+        con.close()
+        db = gffutils.FeatureDB(fn)
+        dbs.append(db)
+    else:
+        n = sum(db.conn.execute("UPDATE features SET attributes = ? WHERE id = ?", t).rowcount for t in todo)
+        db.conn.commit()
+    if n != 2:
+        raise AssertionError("harness: UPDATE touched %d rows" % n)
+    ctx.mon("sjson: database rows rewritten with plain sqlite3", 2)
+    a, b, c = db[ids[0]], db[ids[1]], db[ids[2]]
+    if str(c) != before[ids[2]]:
+        raise AssertionError("harness: untouched row changed")
+    for via, feats in (("db[id]", [a, b]), ("all_features()", None), ("features_of_type()", None)):
+        if feats is None:
+            it = db.all_features() if via == "all_features()" else db.features_of_type(cols[2])
+            got = {x.id: x for x in it}
+            feats = [got.get(ids[0]), got.get(ids[1])]
+            if feats[0] is None or feats[1] is None:
+                return {"why": "%s does not yield the rewritten rows" % via}
+        ctx.mon("sjson: features read from rewritten rows", 2)
+        bad = wrapped(ctx, feats[0].attributes, want, "%s of a row holding JSON with scalar values" % via)
+        if bad:
+            return bad
+        bad = wrapped(ctx, feats[1].attributes, want, "%s of a row holding the list form" % via)
+        if bad:
+            raise AssertionError("harness: list-form row reads back differently: %r" % (bad,))
+        bad = same_feature(ctx, feats[0], feats[1], "the feature read from the row holding the list form (%s)" % via)
+        if bad:
+            return bad
+    if not case["rich"]:
+        p = feature_from_line(M.render_line(cols, want, case["fmt"]))
+        if str(p) == str(b):
+            ctx.mon("sjson: compared with the feature parsed from the proper line")
+            return same_feature(ctx, a, p, "the feature parsed from the proper line")
+        ctx.mon("sjson: proper line prints unlike the list form (not compared)")
+    return None
+
+
+def sjson_ctor(ctx, case, items, want, dbs):
+    import gffutils
+    from gffutils.feature import Feature
+
+    def feats(scalar):
+        out = []
+        for i in range(case["n"]):
+            d = {"ID": ["f%d" % i]}
+            for k, form in items:
+                d[k] = form[1] if (scalar and form[0] == "scalar") else list(form[1]) if form[0] != "scalar" else [form[1]]
+            out.append(Feature(seqid="chr1", source="src", featuretype="gene", start=10 + i, end=500 + i, score=".", strand="+",
+                               frame=".", attributes=d))
+        return out
+
+    both = []
+    for scalar in (True, False):
+        fs = feats(scalar)
+        fn = ":memory:"
+        if case["file"]:
+            fn = ctx.tmp(".db")
+            dbs.append(("path", fn))
+        if case["route"] == "ctor_create" or len(fs) < 2:
+            db = gffutils.create_db(iter(fs), fn, merge_strategy="error")
+        else:
+            db = gffutils.create_db(iter(fs[:1]), fn, merge_strategy="error")
+            db.update(iter(fs[1:]), merge_strategy="error")
+        dbs.append(db)
+        if case["file"]:
+            db.conn.close()
+            db = gffutils.FeatureDB(fn)
+            dbs.append(db)
+        both.append(db)
+    ctx.mon("sjson: hand-built features with scalar values stored", case["n"])
+    for i in range(case["n"]):
+        fid = "f%d" % i
+        a, b = both[0][fid], both[1][fid]
+        exp = [["ID", [fid]]] + want
+        ctx.mon("sjson: hand-built features read back")
+        bad = wrapped(ctx, a.attributes, exp, "feature read back after storing Feature(attributes=<dict with scalar values>)")
+        if bad:
+            return bad
+        bad = wrapped(ctx, b.attributes, exp, "list-form twin")
+        if bad:
+            raise AssertionError("harness: list-form twin reads back differently: %r" % (bad,))
+        bad = same_feature(ctx, a, b, "the feature stored in list form")
+        if bad:
+            return bad
+    n = sum(1 for _ in both[0].all_features())
+    if n != case["n"]:
+        return {"why": "%d features stored for %d given" % (n, case["n"])}
+    return None
+
+
+def run_sjson(ctx, case):
+    items = case["items"]
+    want = [[k, M.expected_sequence(form)] for k, form in items]
+    text_s = M.scalar_json(items, case["style"])
+    text_l = M.list_json(items)
+    dbs = []
+    try:
+        try:
+            if case["route"] == "text":
+                bad = sjson_text(ctx, case, items, want, text_s, text_l)
+            elif case["route"].startswith("update"):
+                bad = sjson_update(ctx, case, items, want, text_s, text_l, dbs)
+            else:
+                bad = sjson_ctor(ctx, case, items, want, dbs)
+        except AssertionError:
+            raise
+        except Exception as ex:
+            bad = {"why": "scalar-valued JSON (%s) raised %s" % (case["route"], type(ex).__name__), "exception": repr(ex)}
+        if bad:
+            bad["json"] = text_s
+            ctx.violation(case, bad)
+            contracts.drain()
+            return
+    finally:
+        close_all(dbs)
+    drain(ctx, case)
+
+
+KINDS = {"json": run_json, "merge": run_merge, "db": run_db, "eq": run_eq, "set": run_set, "print": run_print, "alias": run_alias,
+         "edit": run_edit, "sjson": run_sjson}
 
 
 # ---------------------------------------------------------------------------------
@@ -773,12 +1272,58 @@ def gen_base(rng, fmt):
     return base
 
 
+def gen_origin(rng, case, p_db=0.2, p_json=0.16):
+    """Adds origin (+ the scalar-valued JSON form of the base for the JSON origins) to a case with fmt and base."""
+    r = rng.random()
+    if r < p_db:
+        case["origin"] = "db"
+    elif r < p_db + p_json:
+        case["origin"] = "jsondb" if rng.random() < 0.3 else "jsontext"
+        case["json_base"] = G.scalar_base(rng, case["base"])
+        case["json_style"] = rng.randrange(4)
+    else:
+        case["origin"] = "line"
+    return case
+
+
 def gen_set_case(rng, kind):
     fmt = "gtf" if rng.random() < 0.3 else "gff3"
     base = gen_base(rng, fmt)
     keys = [k for k, _ in base if k not in ("ID", "gene_id", "transcript_id")]
-    return {"kind": kind, "origin": "db" if rng.random() < 0.2 else "line", "fmt": fmt, "base": base,
-            "ops": G.ops(rng, keys)}
+    return gen_origin(rng, {"kind": kind, "fmt": fmt, "base": base, "ops": G.ops(rng, keys)})
+
+
+def gen_edit_case(rng):
+    fmt = "gtf" if rng.random() < 0.25 else "gff3"
+    base = gen_base(rng, fmt)
+    case = {"kind": "edit", "fmt": fmt, "base": base, "steps": G.edit_steps(rng, [k for k, _ in base], fmt),
+            "final": list(G.OBSERVATIONS)}
+    return gen_origin(rng, case, p_db=0.15, p_json=0.2)
+
+
+def gen_sjson_case(rng):
+    route = rng.choice(["text", "text", "text", "text", "update_file", "update_conn", "update_conn", "ctor_create", "ctor_update"])
+    rich = rng.random() < 0.5
+    fmt = "gtf" if (route in ("text", "update_file", "update_conn") and not rich and rng.random() < 0.3) else "gff3"
+    case = {"kind": "sjson", "route": route, "rich": rich, "fmt": fmt, "style": rng.randrange(4),
+            "items": G.scalar_items(rng, fmt, rich, exclude=("ID", "Parent") if route.startswith("ctor") else ())}
+    if route.startswith("ctor"):
+        case["n"] = rng.randrange(1, 4)
+        case["file"] = rng.random() < 0.3
+    return case
+
+
+def edit_phase(ctx, rng):
+    """One object observed, edited, observed again."""
+    for _ in range(ctx.budget(3600, 100000)):
+        case = gen_edit_case(rng)
+        execute(ctx, case)
+        primed = any(st["pre"] for st in case["steps"])
+        ctx.case(case, primed, sample=case if rng.random() < 0.05 else None, cls="edit origin=" + case["origin"])
+        ctx.classes["edit fmt=" + case["fmt"]] += 1
+        for st in case["steps"]:
+            ctx.classes["edit: %s edit%s" % ("attribute mapping" if "items" in st["op"] else st["op"]["how"],
+                                             " after an observation" if st["pre"] else "")] += 1
 
 
 def set_nontrivial(case):
@@ -853,6 +1398,12 @@ def run(ctx):
         case = {"kind": "alias", "lines": lines}
         execute(ctx, case)
         ctx.case(case, True, sample=case if rng.random() < 0.02 else None, cls="alias shared-text" if shared else "alias")
+    # 4c. JSON texts / database columns whose values are scalars
+    for _ in range(ctx.budget(1400, 40000)):
+        case = gen_sjson_case(rng)
+        execute(ctx, case)
+        ctx.case(case, True, sample=case if rng.random() < 0.05 else None, cls="sjson " + case["route"])
+        ctx.classes["sjson %s" % ("arbitrary Unicode" if case["rich"] else "reparse-safe values, " + case["fmt"])] += 1
     # 5. setting values, both switch settings (everything but the printed line)
     for _ in range(ctx.budget(12000, 240000)):
         case = gen_set_case(rng, "set")
@@ -861,6 +1412,7 @@ def run(ctx):
         ctx.classes["set fmt=" + case["fmt"]] += 1
     # 6./7. the two places where a defect is expected to flood come last, so that they cannot push other reports out
     # of the per-shard record; even shards start with the printed line, odd shards with merge under the switch
+    edit_phase(ctx, rng)
     late = [print_phase, lambda c, r: merge_phase(c, r, c.budget(4000, 80000), False)]
     if ctx.shard % 2:
         late.reverse()
